@@ -89,28 +89,29 @@ Definition is_binary_op (t : TokenType) (prev : option TokenType) : bool :=
 
 (* ------------------------------------------------------------------ *)
 (* FormattingContext *)
-Record fctx := mkCtx { c_ty : ContextType; c_delta : N; c_start : nat; c_end : option nat }.
+Record fctx := mkCtx { c_ty : ContextType; c_delta : N; c_start : N; c_end : option N }.
 
 (* FormattingContext::is_active_at_token *)
-Definition is_active_at (c : fctx) (li : nat) : bool :=
-  negb (Nat.eqb (c_start c) li) && match c_end c with None => true | Some e => Nat.leb li e end.
+Definition is_active_at (c : fctx) (li : N) : bool :=
+  negb (c_start c =? li) && match c_end c with None => true | Some e => li <=? e end.
 
-(* a context stack at one token: (index into the line's context table, context), top first *)
-Definition cstack := list (nat * fctx).
+(* a context stack at one token: (index into the line's context table + 1, context), top first.
+   The index is kept as a positive (1-based) because the per-solution context data is a functional array *)
+Definition cstack := list (positive * fctx).
 
 (* ------------------------------------------------------------------ *)
 (* the builder *)
-Record bctx := mkB { bc_idx : nat; bc_ty : ContextType; bc_delta : N; bc_start : nat; bc_end : option nat;
-                     bc_parent : option nat; bc_rm : bool; bc_ma : bool }.
+Record bctx := mkB { bc_idx : N; bc_ty : ContextType; bc_delta : N; bc_start : N; bc_end : option N;
+                     bc_parent : option N; bc_rm : bool; bc_ma : bool }.
 
 Definition bc_set_ty (t : ContextType) (c : bctx) := mkB (bc_idx c) t (bc_delta c) (bc_start c) (bc_end c) (bc_parent c) (bc_rm c) (bc_ma c).
-Definition bc_set_end (e : option nat) (c : bctx) := mkB (bc_idx c) (bc_ty c) (bc_delta c) (bc_start c) e (bc_parent c) (bc_rm c) (bc_ma c).
+Definition bc_set_end (e : option N) (c : bctx) := mkB (bc_idx c) (bc_ty c) (bc_delta c) (bc_start c) e (bc_parent c) (bc_rm c) (bc_ma c).
 Definition bc_set_rm (r : bool) (c : bctx) := mkB (bc_idx c) (bc_ty c) (bc_delta c) (bc_start c) (bc_end c) (bc_parent c) r (bc_ma c).
 Definition bc_set_ma (m : bool) (c : bctx) := mkB (bc_idx c) (bc_ty c) (bc_delta c) (bc_start c) (bc_end c) (bc_parent c) (bc_rm c) m.
 
 (* b_stack: the parent chain of current_context, top first, root last (never empty);
    b_upd: update_indices, newest first, each with the indices of the chain at that moment *)
-Record builder := mkBld { b_stack : list bctx; b_done : list bctx; b_next : nat; b_upd : list (nat * list nat); b_li : nat }.
+Record builder := mkBld { b_stack : list bctx; b_done : list bctx; b_next : N; b_upd : list (N * list N); b_li : N }.
 
 Definition root_bctx : bctx := mkB 0 CT_Base 1 0 None None false false.
 Definition new_builder : builder := mkBld [root_bctx] [] 1 [] 0.
@@ -131,7 +132,7 @@ Fixpoint map_first (flt : ContextType -> bool) (f : bctx -> bctx) (s : list bctx
 (* add_context; utility = push_utility (the new context is put into contexts_to_remove) *)
 Definition b_add (utility : bool) (ty : ContextType) (delta : N) (b : builder) : builder :=
   let c := mkB (b_next b) ty delta (b_li b) None (Some (bc_idx (b_top b))) utility (ct_eqb ty (CT_Precedence 0)) in
-  mkBld (c :: b_stack b) (b_done b) (S (b_next b)) (b_upd b) (b_li b).
+  mkBld (c :: b_stack b) (b_done b) (N.succ (b_next b)) (b_upd b) (b_li b).
 Definition b_push (ty : ContextType) := b_add false ty 1.
 Definition b_push_d (ty : ContextType) (d : N) := b_add false ty d.
 Definition b_push_u (ty : ContextType) := b_add true ty 1.
@@ -149,7 +150,7 @@ Definition b_pop (b : builder) : builder :=
   match b_stack b with
   | [] => b
   | c :: r =>
-      let c' := match bc_end c with None => bc_set_end (Some (Nat.pred (b_li b))) c | Some _ => c end in
+      let c' := match bc_end c with None => bc_set_end (Some (N.pred (b_li b))) c | Some _ => c end in
       match r with
       | [] => b_set_stack [c'] b
       | _ :: _ => mkBld r (c' :: b_done b) (b_next b) (b_upd b) (b_li b)
@@ -178,9 +179,9 @@ Definition b_next_token (b : builder) : builder :=
   let b := if b_top_ty b IS (CT_Precedence _ | CT_TypedAssignment | CT_Assignment | CT_AssignLHS | CT_AssignRHS | CT_CommaList | CT_SemicolonList)
            then b else b_retain_current b in
   let cur := bc_idx (b_top b) in
-  let same := match b_upd b with (_, i :: _) :: _ => Nat.eqb i cur | _ => false end in
+  let same := match b_upd b with (_, i :: _) :: _ => i =? cur | _ => false end in
   let upd := if same then b_upd b else (b_li b, map bc_idx (b_stack b)) :: b_upd b in
-  mkBld (b_stack b) (b_done b) (b_next b) upd (S (b_li b)).
+  mkBld (b_stack b) (b_done b) (b_next b) upd (N.succ (b_li b)).
 
 Definition is_brackets (t : ContextType) : bool := t IS CT_Brackets _ _.
 
@@ -228,10 +229,10 @@ Definition opt_ct_eqb (a b : option ContextType) : bool :=
   match a, b with Some x, Some y => ct_eqb x y | None, None => true | _, _ => false end.
 
 (* the contexts that apply to the CURRENT token (second block) *)
-Definition b_cur_step (lt : LogicalLineType) (ntoks : nat) (prev : option TokenType) (cur : TokenType) (next : option TokenType)
+Definition b_cur_step (lt : LogicalLineType) (ntoks : N) (prev : option TokenType) (cur : TokenType) (next : option TokenType)
     (b : builder) : builder :=
   let last := b_top_ty b in
-  let set_end_prev (c : bctx) := bc_set_end (Some (Nat.pred (b_li b))) c in
+  let set_end_prev (c : bctx) := bc_set_end (Some (N.pred (b_li b))) c in
   match cur with
   | TT_Op (OK_LParen | OK_LBrack | OK_LessThan ChK_Generic) =>
       let kind := match cur with TT_Op OK_LBrack => BK_Square | TT_Op (OK_LessThan ChK_Generic) => BK_Angle | _ => BK_Round end in
@@ -249,7 +250,7 @@ Definition b_cur_step (lt : LogicalLineType) (ntoks : nat) (prev : option TokenT
   | TT_Op (OK_GreaterThan ChK_Generic | OK_RParen | OK_RBrack) => b_pop_until is_brackets b
   | TT_Op OK_Semicolon =>
       let b := b_pop_until (fun t => t IS CT_DirectiveList) b in
-      if Nat.eqb (S (b_li b)) ntoks && (b_top_ty b IS CT_DirectiveList) then
+      if (N.succ (b_li b) =? ntoks) && (b_top_ty b IS CT_DirectiveList) then
         b_pop_until (fun t => t IS (CT_Base | CT_RoutineHeader | CT_DirectivesLine)) b
       else b_retain_current (b_pop_until (fun t => t IS (CT_DirectiveList | CT_SemicolonList | CT_Base | CT_RoutineHeader)) b)
   | TT_Op OK_Comma =>
@@ -328,7 +329,7 @@ Definition b_after (cur : TokenType) (b : builder) : builder :=
   end.
 
 (* the token loop of LineFormattingContexts::new: tys = the types of the line's tokens *)
-Fixpoint b_loop (lt : LogicalLineType) (ntoks : nat) (tys : list TokenType) (pp prev prev_sem : option TokenType) (b : builder) : builder :=
+Fixpoint b_loop (lt : LogicalLineType) (ntoks : N) (tys : list TokenType) (pp prev prev_sem : option TokenType) (b : builder) : builder :=
   match tys with
   | [] => b
   | cur :: rest =>
@@ -364,7 +365,7 @@ Definition b_init (lt : LogicalLineType) (b : builder) : builder :=
 Fixpoint insert_by_idx (c : bctx) (l : list bctx) : list bctx :=
   match l with
   | [] => [c]
-  | x :: r => if Nat.ltb (bc_idx c) (bc_idx x) then c :: l else x :: insert_by_idx c r
+  | x :: r => if bc_idx c <? bc_idx x then c :: l else x :: insert_by_idx c r
   end.
 (* b_done is in pop order; contexts are mostly popped in reverse creation order, so inserting from the
    front of b_done into an ascending list is cheap *)
@@ -374,36 +375,30 @@ Definition sort_by_idx (l : list bctx) : list bctx := fold_left (fun acc c => in
 Definition fin_ma (c : bctx) : bctx := if bc_ma c && (bc_ty c IS CT_Precedence O) then bc_set_ty CT_MemberAccess c else c.
 Definition fin_rm (c : bctx) : bctx :=
   let useless := match bc_end c with
-                 | Some e => Nat.eqb e (bc_start c)
+                 | Some e => e =? bc_start c
                  | None => bc_ty c IS (CT_CommaList | CT_Assignment)
                  end in
   if useless then bc_set_rm true c else c.
 
-(* finalise, step 3.  acc = the already finalised contexts 0..k-1, newest first (index k-1 at the head) *)
-Definition acc_get (acc : list bctx) (k i : nat) : option bctx := nth_error acc (k - 1 - i).
-
-Fixpoint anc_find (fuel : nat) (acc : list bctx) (k : nat) (start : option nat) (p : bctx -> bool) : option bctx :=
-  match fuel, start with
-  | S f, Some i => match acc_get acc k i with
-                   | Some c => if p c then Some c else anc_find f acc k (bc_parent c) p
-                   | None => None
-                   end
-  | _, _ => None
+(* finalise, step 3.  The tree in creation order is a pre-order traversal (a context only gets descendants
+   while it is on the parent chain), so the ancestors of the context being visited are kept as a chain
+   (parent first) of already finalised contexts. *)
+Fixpoint drop_to (p : N) (chain : list bctx) : list bctx :=
+  match chain with
+  | [] => []
+  | c :: r => if bc_idx c =? p then chain else drop_to p r
   end.
 
 (* in_guard_clause: walk the ancestors, stop at the first Brackets *)
-Fixpoint anc_guard (fuel : nat) (acc : list bctx) (k : nat) (start : option nat) : bool :=
-  match fuel, start with
-  | S f, Some i => match acc_get acc k i with
-                   | Some c => if is_brackets (bc_ty c) then false
-                               else if bc_ty c IS (CT_GuardClause | CT_Raise | CT_RaiseAt | CT_ForLoop) then true
-                               else anc_guard f acc k (bc_parent c)
-                   | None => false
-                   end
-  | _, _ => false
+Fixpoint anc_guard (chain : list bctx) : bool :=
+  match chain with
+  | [] => false
+  | c :: r => if is_brackets (bc_ty c) then false
+              else if bc_ty c IS (CT_GuardClause | CT_Raise | CT_RaiseAt | CT_ForLoop) then true
+              else anc_guard r
   end.
 
-Definition fin_bracket (acc : list bctx) (k : nat) (c : bctx) : bctx :=
+Definition fin_bracket (chain : list bctx) (c : bctx) : bctx :=
   let newty := match bc_ty c with
                | CT_Brackets kind BS_Expanded => Some (CT_Brackets kind BS_Invisible)
                | CT_Brackets kind BS_BreakClose => Some (CT_Brackets kind BS_ContClose)
@@ -412,19 +407,21 @@ Definition fin_bracket (acc : list bctx) (k : nat) (c : bctx) : bctx :=
   match newty with
   | None => c
   | Some t =>
-      let a := anc_find (S k) acc k (bc_parent c)
-                 (fun x => negb (bc_rm x) && negb (bc_ty x IS (CT_MemberAccess | CT_AssignRHS))) in
+      let a := find (fun x => negb (bc_rm x) && negb (bc_ty x IS (CT_MemberAccess | CT_AssignRHS))) chain in
       let in_prec := match a with Some x => bc_ty x IS (CT_Precedence _ | CT_Brackets _ BS_Invisible) | None => false end in
-      if in_prec || anc_guard (S k) acc k (bc_parent c) then bc_set_ty t c else c
+      if in_prec || anc_guard chain then bc_set_ty t c else c
   end.
 
-Fixpoint fin_brackets (l : list bctx) (acc : list bctx) (k : nat) : list bctx :=
+Fixpoint fin_brackets (l : list bctx) (chain : list bctx) (acc : list bctx) : list bctx :=
   match l with
   | [] => rev acc
-  | c :: r => fin_brackets r (fin_bracket acc k c :: acc) (S k)
+  | c :: r =>
+      let chain := match bc_parent c with Some p => drop_to p chain | None => [] end in
+      let c' := fin_bracket chain c in
+      fin_brackets r (c' :: chain) (c' :: acc)
   end.
 
-Definition finalise (all : list bctx) : list bctx := fin_brackets (map fin_rm (map fin_ma all)) [] 0.
+Definition finalise (all : list bctx) : list bctx := fin_brackets (map fin_rm (map fin_ma all)) [] [].
 
 (* write_context_tree: the new index of every builder context (None = removed, mapped to its parent's node);
    the root of the new tree is a FRESH Base context (new_tree()), whatever happened to the builder's root *)
@@ -432,40 +429,40 @@ Definition root_fctx : fctx := mkCtx CT_Base 1 0 None.
 Definition fctx_of (c : bctx) : fctx := mkCtx (bc_ty c) (bc_delta c) (bc_start c) (bc_end c).
 
 (* table, newest first: (builder index, Some (new index, context) | None) *)
-Fixpoint renumber (l : list bctx) (next : nat) (acc : list (nat * option (nat * fctx))) : list (nat * option (nat * fctx)) * nat :=
+Fixpoint renumber (l : list bctx) (next : positive) (acc : list (N * option (positive * fctx))) : list (N * option (positive * fctx)) * positive :=
   match l with
   | [] => (acc, next)
   | c :: r =>
       match bc_parent c with
-      | None => renumber r next ((bc_idx c, Some (O, root_fctx)) :: acc)
+      | None => renumber r next ((bc_idx c, Some (xH, root_fctx)) :: acc)
       | Some _ => if bc_rm c then renumber r next ((bc_idx c, None) :: acc)
-                  else renumber r (S next) ((bc_idx c, Some (next, fctx_of c)) :: acc)
+                  else renumber r (Pos.succ next) ((bc_idx c, Some (next, fctx_of c)) :: acc)
       end
   end.
 
 (* a builder chain (indices descending) against the table (indices descending) *)
-Fixpoint resolve (tbl : list (nat * option (nat * fctx))) (chain : list nat) : cstack :=
+Fixpoint resolve (tbl : list (N * option (positive * fctx))) (chain : list N) : cstack :=
   match tbl with
   | [] => []
   | (i, e) :: t =>
       match chain with
       | [] => []
       | j :: chain' =>
-          if Nat.eqb i j then match e with Some x => x :: resolve t chain' | None => resolve t chain' end
+          if i =? j then match e with Some x => x :: resolve t chain' | None => resolve t chain' end
           else resolve t chain
       end
   end.
 
 (* get_specific_context_stack for every line index 0..n-1: upd ascending by line index *)
-Fixpoint expand_stacks (n : nat) (li : nat) (cur : cstack) (upd : list (nat * cstack)) : list cstack :=
+Fixpoint expand_stacks (n : nat) (li : N) (cur : cstack) (upd : list (N * cstack)) : list cstack :=
   match n with
   | O => []
   | S k =>
       let (cur, upd) := match upd with
-                        | (i, s) :: r => if Nat.leb i li then (s, r) else (cur, upd)
+                        | (i, s) :: r => if i <=? li then (s, r) else (cur, upd)
                         | [] => (cur, upd)
                         end in
-      cur :: expand_stacks k (S li) cur upd
+      cur :: expand_stacks k (N.succ li) cur upd
   end.
 
 Record line_contexts := mkLC { lc_count : nat; lc_table : list fctx; lc_stacks : list cstack }.
@@ -473,10 +470,11 @@ Record line_contexts := mkLC { lc_count : nat; lc_table : list fctx; lc_stacks :
 (* LineFormattingContexts::new + get_specific_context_stack(i) for i < ntoks.
    tys = the token types of the line's tokens (the Rust loop stops at the first token index without a type) *)
 Definition line_contexts_new (lt : LogicalLineType) (ntoks : nat) (tys : list TokenType) : line_contexts :=
-  let b := b_loop lt ntoks tys None None None (b_init lt new_builder) in
+  let b := b_loop lt (N.of_nat ntoks) tys None None None (b_init lt new_builder) in
   let all := finalise (sort_by_idx (b_done b ++ b_stack b)) in
-  let (tbl, count) := renumber all 1 [] in
-  let upd := map (fun p : nat * list nat => (fst p, resolve tbl (snd p))) (rev (b_upd b)) in
+  let (tbl, next) := renumber all 2%positive [] in
+  let count := Nat.pred (Pos.to_nat next) in
+  let upd := map (fun p : N * list N => (fst p, resolve tbl (snd p))) (rev (b_upd b)) in
   mkLC count (root_fctx :: map (fun e => match snd e with Some (_, c) => c | None => root_fctx end)
-                               (filter (fun e => match snd e with Some (S _, _) => true | _ => false end) (rev tbl)))
+                               (filter (fun e => match snd e with Some (xH, _) => false | Some _ => true | None => false end) (rev tbl)))
        (expand_stacks ntoks 0 [] upd).
